@@ -44,7 +44,8 @@ def near(values, lo, hi, dmin=1e-13, dmax=1.0):
 
 def ellipsoid_spec(invf_lo=150.0, invf_hi=400.0, shipped_weight=2):
     shipped = st.sampled_from(SHIPPED_ELLIPSOIDS)
-    custom = st.fixed_dictionaries({"a": floats(6.3e6, 6.4e6), "invf": floats(invf_lo, invf_hi)})
+    custom = st.fixed_dictionaries({"a": floats(6.3e6, 6.4e6), "invf": floats(invf_lo, invf_hi),
+                                    "cls": st.sampled_from(["plain", "plain", "subclass"])})
     # an ellipsoid of the caller's own with the very parameters of a shipped one (a distinct object: `ellipsoid is grs80` is false,
     # every number is equal), parameters given as floats or the way people type them (6378137, 298.25)
     twins = st.sampled_from([{"a": 6378137.0, "invf": 298.257222101}, {"a": 6378137, "invf": 298.257222101}, {"a": 6378160.0, "invf": 298.25},
@@ -57,6 +58,13 @@ def make_ellipsoid(spec):
     c = repo.mod("geodepy.constants")
     if isinstance(spec, str):
         return getattr(c, spec)
+    if spec.get("cls") == "subclass":
+        # an ellipsoid class of the caller's own, derived from the library's, with a constructor of its own (a name first)
+        def __init__(self, name, a, invf):
+            c.Ellipsoid.__init__(self, a, invf)
+            self.name = name
+        sub = type("CallerEllipsoid", (c.Ellipsoid,), {"__init__": __init__})
+        return sub("mine", spec["a"], spec["invf"])
     return c.Ellipsoid(spec["a"], spec["invf"])
 
 
@@ -75,6 +83,7 @@ def projection_spec():
         "fn": st.sampled_from([0.0, 5000000.0, 10000000.0, 7654321.25]),
         "k0": st.one_of(st.sampled_from([0.9996, 0.99994, 1.0, 0.999]), floats(0.999, 1.0)),
         "zw": st.sampled_from([2, 3, 6, 8]),
+        "cls": st.sampled_from(["plain", "plain", "subclass"]),
     })
     return st.one_of(st.just("utm"), st.just("utm"), st.just("isg"), custom)
 
@@ -86,6 +95,10 @@ def make_projection(spec):
     zw = spec["zw"]
     # zone 1 centred so that the zones tile [-180, 180) like UTM's do
     cm1 = spec.get("cm1", -180.0 + zw / 2.0)
+    if spec.get("cls") == "subclass":
+        # a projection class of the caller's own, derived from the library's (an instance of it IS a Projection)
+        sub = type("CallerProjection", (c.Projection,), {})
+        return sub(spec["fe"], spec["fn"], spec["k0"], zw, cm1)
     return c.Projection(spec["fe"], spec["fn"], spec["k0"], zw, cm1)
 
 
